@@ -369,9 +369,9 @@ Definition ex_sim (g : Q) : list frame3 := [ [ [[Some g]] ]; [ [[Some g]] ]; [ [
 (* non-vacuity: a history on the description of the source — a good vector (6: 1+3+2 = 6), a bad one
    (0: 5+9+4 = 18), the good one again on a copy, another call, the bad one again *)
 Example C11_history_nonvacuous :
-  run_hist ex_sim src_fdesc src_checker src_calls src_weights ex_h3 (fd_regs src_fdesc)
-           [HFit 6; HFit 0; HFitCopy 6; HNop; HFit 0]
-  = (fd_regs src_fdesc, [Some (OVal 6); Some (OVal 18); Some (OVal 6); None; Some (OVal 18)]).
+  snd (run_hist ex_sim src_fdesc src_checker src_calls src_weights ex_h3 (fd_regs src_fdesc)
+                [HFit 6; HFit 0; HFitCopy 6; HNop; HFit 0])
+  = [Some (OVal 6); Some (OVal 18); Some (OVal 6); None; Some (OVal 18)].
 Proof. vm_compute. reflexivity. Qed.
 
 (* the model can express what the theorems exclude.  (a) a remembered best fitness with an early exit
